@@ -1022,20 +1022,54 @@ impl Indexable for ast::SimpleValue {
             }
             ast::SimpleValue::List(list) => {
                 // index every element (a lazy iterator would stop after the first one)
-                let value_types: Vec<Type> = list
+                let values: Vec<(ast::Value, Type)> = list
                     .value_list()?
                     .values()
-                    .filter_map(|value| value.index(ctx))
+                    .filter_map(|value| {
+                        let typ = value.index(ctx)?;
+                        Some((value, typ))
+                    })
                     .collect();
                 // `[]<int>`, `[a, b]<Foo>`: the element type is spelled out
-                if let Some(element_typ) = list.r#type().and_then(|typ| typ.index(ctx)) {
-                    return Some(Type::List(Box::new(element_typ)));
+                let given_element_typ = list.r#type().and_then(|typ| typ.index(ctx));
+                // otherwise the elements have to agree on one (`[i16, f16]` is a list<ValueType>);
+                // an element that does not fit is reported
+                let mut element_typ = given_element_typ.clone();
+                for (value, typ) in values {
+                    let fitting_typ = match (&given_element_typ, &element_typ) {
+                        (Some(given_typ), _) => typ
+                            .can_be_casted_to(&ctx.symbol_map, given_typ)
+                            .then(|| given_typ.clone()),
+                        // (a type that is not known fits; of two that fit each other the more
+                        // general one stays)
+                        (None, Some(element_typ)) => {
+                            let is_vague = |typ: &Type| {
+                                matches!(typ, Type::Unknown | Type::Any | Type::Uninitialized)
+                            };
+                            if is_vague(&typ) {
+                                Some(element_typ.clone())
+                            } else if is_vague(element_typ)
+                                || element_typ.can_be_casted_to(&ctx.symbol_map, &typ)
+                            {
+                                Some(typ.clone())
+                            } else {
+                                element_typ.common_type(&ctx.symbol_map, &typ)
+                            }
+                        }
+                        (None, None) => Some(typ.clone()),
+                    };
+                    match fitting_typ {
+                        Some(fitting_typ) => element_typ = Some(fitting_typ),
+                        None => {
+                            let element_typ = element_typ.as_ref().unwrap_or(&Type::Any);
+                            ctx.error(
+                                value.syntax().text_range(),
+                                format!("incompatible types in list elements: {element_typ} and {typ}"),
+                            );
+                        }
+                    }
                 }
-                value_types
-                    .into_iter()
-                    .next()
-                    .map(|typ| Type::List(Box::new(typ)))
-                    .or(Some(Type::List(Box::new(Type::Any))))
+                Some(Type::List(Box::new(element_typ.unwrap_or(Type::Any))))
             }
             ast::SimpleValue::Dag(dag) => {
                 if let Some(value) = dag.operator().and_then(|it| it.value()) {
